@@ -13,6 +13,7 @@ func (a *Act) execBlock(b *ssa.BasicBlock, ctx *blockCtx) {
 	g := a.g
 	_, isHeader := a.loops[b]
 	for idx, ins := range b.Instrs {
+		a.curBlk, a.curIdx = b, idx
 		if len(a.pending) > 0 {
 			_, isExt := ins.(*ssa.Extract)
 			_, isDbg := ins.(*ssa.DebugRef)
@@ -137,7 +138,7 @@ func (a *Act) execBlock(b *ssa.BasicBlock, ctx *blockCtx) {
 			lv := a.val(x.Len)
 			s := g.w.sortOf(x.Type())
 			e := slcElem(s)
-			a.set(x, Val{T: "(mk_slc ((as const (Array Int " + e + ")) " + g.w.zeroSort(e) + ") " + lv.T + ")", S: s, G: x.Type()})
+			a.set(x, Val{T: "((as mk_slc " + s + ") ((as const (Array Int " + e + ")) " + g.w.zeroSort(e) + ") " + lv.T + ")", S: s, G: x.Type()})
 		case *ssa.MakeChan:
 			a.set(x, Val{T: a.freshRef(ctx, "chan"), S: "Ref", G: x.Type()})
 		case *ssa.MakeClosure:
@@ -383,9 +384,40 @@ func (a *Act) unop(ctx *blockCtx, x *ssa.UnOp) {
 	case token.SUB:
 		a.set(x, intT("(- "+v.T+")"))
 	case token.ARROW:
-		g.problem("%s: channel receive at %s is outside the verified subset", a.key, g.pos(x.Pos()))
-		s := g.w.sortOf(x.Type())
-		a.set(x, Val{T: g.fresh("recv", s), S: s, G: x.Type()})
+		// receive: an arbitrary value of the element type arrives (or the channel is closed).
+		// Which values arrive is the business of the sender's contract (sequentialisation / pool lemma).
+		et := x.X.Type().Underlying().(*types.Chan).Elem()
+		rv := a.freshVal(et, "received")
+		if x.CommaOk {
+			ok := g.fresh("recv_ok", "Bool")
+			a.tuples[x] = []Val{rv, boolT(ok)}
+			a.set(x, Val{T: "$tuple", S: "Tuple"})
+		} else {
+			a.set(x, rv)
+		}
+		g.usedAssumed["channel receive delivers some value of the element type (which values arrive is covered by the stated concurrency meta-lemma, not by this verifier)"] = true
+		if a.spec != nil {
+			if a.recvVars == nil {
+				a.recvVars = map[string]Val{}
+			}
+			a.recvVars["received"] = rv
+			if tup := a.tuples[x]; tup != nil {
+				a.recvVars["recvok"] = tup[1]
+			} else {
+				a.recvVars["recvok"] = boolT("true")
+			}
+			n := a.ordinalOf(x, "recv")
+			blk := x.Block()
+			idx := 0
+			for k, in := range blk.Instrs {
+				if in == ssa.Instruction(x) {
+					idx = k
+				}
+			}
+			a.anchors(ctx, "recv", n, true, blk, idx+1)
+			delete(a.recvVars, "received")
+			delete(a.recvVars, "recvok")
+		}
 	default:
 		g.problem("%s: unsupported unary op %s", a.key, x.Op)
 		s := g.w.sortOf(x.Type())
@@ -596,8 +628,7 @@ func (a *Act) convert(ctx *blockCtx, x *ssa.Convert) {
 		g.extraDecl("f_runestr", "(declare-fun f_runestr (Int) Str)")
 		a.set(x, Val{T: "(f_runestr " + v.T + ")", S: "Str", G: x.Type()})
 	case from == "Str" && to == "(Slc Int)":
-		g.extraDecl("f_bytes", "(declare-fun f_bytes (Str) (Array Int Int))\n(assert (forall ((s Str) (i Int)) (! (= (select (f_bytes s) i) (sat s i)) :pattern ((select (f_bytes s) i)))))")
-		a.set(x, Val{T: "(mk_slc (f_bytes " + v.T + ") (slen " + v.T + "))", S: to, G: x.Type()})
+		a.set(x, Val{T: g.bytesOf(v.T), S: to, G: x.Type()})
 	case from == "(Slc Int)" && to == "Str":
 		a.set(x, Val{T: "(" + g.strofFn() + " " + v.T + ")", S: "Str", G: x.Type()})
 	default:
@@ -717,7 +748,7 @@ func (a *Act) slice(ctx *blockCtx, x *ssa.Slice) {
 		if lo != "0" {
 			g.problem("%s: slice expression with non-zero low bound at %s is outside the verified subset", a.key, g.pos(x.Pos()))
 		}
-		a.set(x, Val{T: "(mk_slc (slc_arr " + bv.T + ") " + hi + ")", S: bv.S, G: x.Type()})
+		a.set(x, Val{T: "((as mk_slc " + bv.S + ") (slc_arr " + bv.T + ") " + hi + ")", S: bv.S, G: x.Type()})
 	case *types.Pointer:
 		ar := t.Elem().Underlying().(*types.Array)
 		arrV := g.load(ctx.st, bv)
@@ -731,7 +762,7 @@ func (a *Act) slice(ctx *blockCtx, x *ssa.Slice) {
 			g.problem("%s: slice of array with non-zero low bound at %s", a.key, g.pos(x.Pos()))
 		}
 		s := g.w.sortOf(x.Type())
-		v := Val{T: "(mk_slc " + arrV.T + " " + hi + ")", S: s, G: x.Type()}
+		v := Val{T: "((as mk_slc " + s + ") " + arrV.T + " " + hi + ")", S: s, G: x.Type()}
 		if kl >= 0 {
 			a.knownLen(v.T, kl)
 		}
@@ -800,6 +831,11 @@ func (a *Act) rangeNext(ctx *blockCtx, x *ssa.Next) {
 func (a *Act) spawn(ctx *blockCtx, x *ssa.Go) {
 	g := a.g
 	callee := x.Call.StaticCallee()
+	if callee == nil && !x.Call.IsInvoke() {
+		if mc, ok := x.Call.Value.(*ssa.MakeClosure); ok {
+			callee = mc.Fn.(*ssa.Function)
+		}
+	}
 	if callee == nil || x.Call.IsInvoke() {
 		g.problem("%s: go statement with dynamic callee at %s is outside the verified subset", a.key, g.pos(x.Pos()))
 		return
@@ -854,4 +890,10 @@ func (g *Gen) strofFn() string {
 	g.w.elemSorts["Int"] = true
 	g.extraDecl("f_strof", "(declare-fun f_strof ((Slc Int)) Str)\n(assert (forall ((b (Slc Int))) (! (=> (>= (slc_len b) 0) (= (slen (f_strof b)) (slc_len b))) :pattern ((f_strof b)))))\n(assert (forall ((b (Slc Int)) (i Int)) (! (=> (and (<= 0 i) (< i (slc_len b))) (= (sat (f_strof b) i) (select (slc_arr b) i))) :pattern ((sat (f_strof b) i)))))")
 	return "f_strof"
+}
+
+func (g *Gen) bytesOf(s string) string {
+	g.w.elemSorts["Int"] = true
+	g.extraDecl("f_bytes", "(declare-fun f_bytes (Str) (Array Int Int))\n(assert (forall ((s Str) (i Int)) (! (= (select (f_bytes s) i) (sat s i)) :pattern ((select (f_bytes s) i)))))")
+	return "((as mk_slc (Slc Int)) (f_bytes " + s + ") (slen " + s + "))"
 }
